@@ -339,7 +339,7 @@ def replay_history(rec) -> dict:
 shared_cases = st.fixed_dictionaries({
     "part": st.just("S"), "keys": st.lists(any_key().map(gk.key_to_record), min_size=2, max_size=3),
     "params": st.sampled_from([{}, {"use": "sig"}, {"alg": "X", "x5t": "dGh1bWI"}]),
-    "how": st.sampled_from(["import-jwk", "import-pem", "generate", "generate_key_set"]),
+    "how": st.sampled_from(["import-jwk", "import-pem", "generate", "generate_key_set", "import-template"]),
     "assign": st.sampled_from(["ensure_kid", "KeySet", "thumbprint-first"])})
 
 
@@ -357,6 +357,25 @@ def run_shared(c) -> dict:
         ks = KeySet.generate_key_set(ref["kty"], arg, parameters=P, count=3)
         objs = list(ks.keys)
         refs = [({"kty": "oct", "k": k.raw_value} if ref["kty"] == "oct" else gpem.from_crypto(k.raw_value)) for k in objs]
+    elif c["how"] == "import-template":
+        # the caller's own JWK document (a dict with kty, no parameters argument) serves for one key after the other: it gets the
+        # next key's members once the previous key has its kid; the document never gains members and earlier keys are unaffected
+        T = {}
+        for ref in refs:
+            cls = {"oct": OctKey, "RSA": RSAKey, "EC": ECKey, "OKP": OKPKey}[ref["kty"]]
+            for m in [m for m in T if m not in P]:
+                del T[m]
+            T.update(P)
+            T.update(rk.export_jwk(ref))
+            given = dict(T)
+            k = cls.import_key(T)
+            objs.append(k)
+            if c["assign"] == "KeySet":
+                KeySet([k])
+            else:
+                k.ensure_kid()
+            if T != given:
+                f["C13:shared-parameters:callers-jwk-document-changed"] = f"the JWK dict a {ref['kty']} key was imported from gained / changed {sorted(set(T) ^ set(given)) or 'values'} ({c['assign']})"
     else:
         for ref in refs:
             cls = {"oct": OctKey, "RSA": RSAKey, "EC": ECKey, "OKP": OKPKey}[ref["kty"]]
@@ -371,13 +390,17 @@ def run_shared(c) -> dict:
             refs = [({"kty": "oct", "k": k.raw_value} if k.key_type == "oct" else gpem.from_crypto(k.raw_value)) for k in objs]
     # the first key gets its kid, then the others
     for i, k in enumerate(objs):
-        if c["assign"] == "ensure_kid":
-            k.ensure_kid()
-        elif c["assign"] == "KeySet":
-            KeySet([k])
-        else:
-            k.thumbprint()
-            k.ensure_kid()
+        try:
+            if c["assign"] == "ensure_kid":
+                k.ensure_kid()
+            elif c["assign"] == "KeySet":
+                KeySet([k])
+            else:
+                k.thumbprint()
+                k.ensure_kid()
+        except Exception as e:
+            f[f"C13:shared-parameters:kid-assignment-raises:{type(e).__name__}"] = f"key #{i} of {len(objs)} keys ({c['how']}, {c['assign']}): {type(e).__name__}: {e}"
+            return f
     for i, (k, ref) in enumerate(zip(objs, refs)):
         want = rk.thumbprint(ref)
         if k.kid != want or k.as_dict().get("kid") != want:
